@@ -66,7 +66,7 @@ def job_handler(prop):
                     agg.setdefault('notes', []).extend(res['notes'])
                 break
             ci = res.get('case', -1)
-            if res.get('status') in ('crash', 'hang') and str(res.get('stage', '')).startswith('synth'):
+            if res.get('status') in ('crash', 'hang') and str(res.get('stage', '')).startswith(('synth', 'skip:')):
                 # the input was still being synthesised (or its first load faulted): a rejected input, not a verdict
                 agg['rejected'] = agg.get('rejected', 0) + 1
                 break
